@@ -19,7 +19,7 @@ def c01_reads(b, length=None):
     o.append('typedef struct { uint8_t buf[%d]; } vp_in_t;' % L)
     o.append('void harness(void) {')
     o.append('  VP_INPUT(vp_in_t, in);')
-    o.append('  uint8_t *obj = vp_obj_from(in.buf, %d);' % L)
+    o.append('  uint8_t *obj = vp_pdu_from(in.buf, %d);' % L)
     o.append('  %s *pdu = (%s *)obj;' % (b.ctype, b.ctype))
     o.append('  uint64_t exp, got;')
     n = 0
@@ -58,7 +58,7 @@ def c02_writes(b):
             if how == 'dedicated' and not f['setter']:
                 continue
             o.append('  /* %s.%s via %s writer */' % (b.fmt, f['name'], how))
-            o.append('  obj = vp_obj_from(in.buf, %d); pdu = (%s *)obj;' % (L, b.ctype))
+            o.append('  obj = vp_pdu_from(in.buf, %d); pdu = (%s *)obj;' % (L, b.ctype))
             o.append('  memcpy(expect, in.buf, %d); spec_put(expect, %d, %d, in.v);' % (L, f['off'], w))
             if how == 'generic':
                 o.append('  %s(pdu, %s, in.v);' % (b.setfield, f['enum']))
@@ -103,7 +103,7 @@ def c03_extent(b):
     # object of exactly the published size
     o.append('  size_t pub = sizeof(%s);' % b.ctype)
     o.append('  VP_ASSUME(pub <= sizeof(in.buf));')
-    o.append('  uint8_t *obj = vp_obj_from(in.buf, pub);')
+    o.append('  uint8_t *obj = vp_pdu_from(in.buf, pub);')
     o.append('  %s *pdu = (%s *)obj;' % (b.ctype, b.ctype))
     o.append('  uint64_t sink = 0;')
     n = 0
@@ -155,7 +155,7 @@ def c04_init(b):
     if b.legacy and b.legacy['init']:
         inits.append(('legacy', b.legacy['init']))
     for kind, fnname in inits:
-        o.append('  obj = vp_obj_from(in.buf, %d); pdu = (%s *)obj;' % (L, b.ctype))
+        o.append('  obj = vp_pdu_from(in.buf, %d); pdu = (%s *)obj;' % (L, b.ctype))
         if kind == 'legacy' and b.fmt == 'cvf':
             # avtp_cvf_pdu_init(pdu, subtype): canonical image + format_subtype
             fs = W.field('cvf', 'format_subtype')
@@ -194,7 +194,7 @@ def descriptor_sweep(kind, offset=None):
         o.append('  VP_ASSUME(in.off == %d);' % offset)
     o.append('  Avtp_FieldDescriptor_t tab[2] = { {0, 0, 0}, {0, 0, 0} };')
     o.append('  tab[in.idx].quadlet = in.q; tab[in.idx].offset = in.off; tab[in.idx].bits = in.bits;')
-    o.append('  uint8_t *obj = vp_obj_from(in.buf, 28);')
+    o.append('  uint8_t *obj = vp_pdu_from(in.buf, 28);')
     o.append('  unsigned bitoff = 32u * in.q + in.off;')
     if kind == 'get':
         o.append('  uint64_t got = Avtp_GetField(tab, 2, obj, in.idx);')
